@@ -399,6 +399,7 @@ def leaf_correspondence(ctx, tools, exe):
                 kind, desc, {"array_size": "Props/C11.v c11_array_size_refuted", "pairing": "Props/C11.v c11_pairing_refuted"}.get(kind, "model disagrees")), j["src"])
     stats["grids"] = cnt
     for key, (what, src, n) in sorted(found.items()):
+        DUMP.append({"property": "C11", "status": "open", "match": key, "what": what})
         ctx.violation(what + (" (and %d more grid points of the same kind)" % (n - 1) if n > 1 else ""), files={"input.wgsl": src}, key=key)
     return stats, broken, len(jobs) + stats["swizzle"]["compared"]
 
@@ -409,34 +410,60 @@ def site_kind(site):
     return site.split("#")[0]
 
 
+def known_failing(ctx, rule):
+    """failing-site list recorded in known_findings.jsonl for this rule (for a readable diff)"""
+    for k in getattr(ctx, "_known", []):
+        if k.get("status") == "open" and k.get("rule") == rule and isinstance(k.get("failing"), list):
+            return set(k["failing"])
+    return None
+
+
+DUMP = []   # candidate known-finding records of this run (written when C11_DUMP_FINDINGS is set)
+
+
 def report(ctx, scope, cases):
-    """aggregate violations: one key per (rule/variant) naming exactly the set of failing sites"""
-    groups = {}
-    for c in cases:
-        groups.setdefault((c.rule, c.variant), []).append(c)
+    """Template scope: ONE key per rule naming exactly the set of failing (edit variant, site, class)
+    triples, so any site that starts (or stops) failing changes the key.  Corpus scope (seeded
+    instances): one key per (rule, edit, site kind, class)."""
     matrix = ctx.cov.setdefault("rule_x_sitekind", {})
-    for (rule, variant), cs in sorted(groups.items()):
-        for c in cs:
-            m = matrix.setdefault(rule, {}).setdefault(site_kind(c.site), [0, 0])
-            m[0] += 1
-            if c.cls:
-                m[1] += 1
+    by_rule = {}
+    for c in cases:
+        by_rule.setdefault(c.rule, []).append(c)
+        m = matrix.setdefault(c.rule, {}).setdefault(site_kind(c.site), [0, 0])
+        m[0] += 1
+        if c.cls:
+            m[1] += 1
+    for rule, cs in sorted(by_rule.items()):
         bad = [c for c in cs if c.cls]
         if not bad:
             continue
         if scope == "template":
-            sites_all = sorted(set("%s/%s" % (c.origin, c.site) for c in cs))
-            failing = sorted(set("%s/%s:%s" % (c.origin, c.site, c.cls) for c in bad))
-            h = hashlib.sha1("\n".join(failing).encode()).hexdigest()[:10]
-            nf = len(set("%s/%s" % (c.origin, c.site) for c in bad))
-            key = "%s/%s:%dof%d:%s" % (rule, variant, nf, len(sites_all), h)
-            first = sorted(bad, key=lambda c: (len(c.src), c.origin, c.site))[0]
-            classes = sorted(set(c.cls for c in bad))
-            what = ("rule %s (edit %s) is not diagnosed as the property demands at %d of %d sites [%s]; first: %s site %s: %s %s\nfailing sites: %s" % (
-                rule, variant, nf, len(sites_all), ", ".join(classes), first.origin, first.site, first.cls, first.detail, " ".join(failing)[:1500]))
+            ident = lambda c: "%s@%s/%s" % (c.variant, c.origin, c.site)
+            sites_all = set(ident(c) for c in cs)
+            failing = sorted(set("%s:%s" % (ident(c), c.cls) for c in bad))
+            h = hashlib.sha1("\n".join(failing).encode()).hexdigest()[:12]
+            nf = len(set(ident(c) for c in bad))
+            key = "sites:%s:%dof%d:%s" % (rule, nf, len(sites_all), h)
+            known = known_failing(ctx, rule)
+            new = [f for f in failing if known is not None and f not in known]
+            gone = sorted(known - set(failing)) if known is not None else []
+            pool = [c for c in bad if ("%s:%s" % (ident(c), c.cls)) in new] or bad
+            first = sorted(pool, key=lambda c: (len(c.src), c.origin, c.site))[0]
+            per_variant = {}
+            for c in bad:
+                per_variant.setdefault(c.variant, set()).add("%s/%s" % (c.origin, site_kind(c.site)))
+            summary = "; ".join("%s at %d site(s)" % (v, len(ss)) for v, ss in sorted(per_variant.items()))
+            what = "rule %s is not diagnosed as the property demands at %d of %d (edit, site) pairs [%s]" % (
+                rule, nf, len(sites_all), ", ".join(sorted(set(c.cls for c in bad))))
+            if known is not None:
+                what += "\nDIFFERENT from the recorded known finding for this rule: %d newly failing: %s; %d no longer failing: %s" % (
+                    len(new), " ".join(new)[:700], len(gone), " ".join(gone)[:300])
+            what += "\nshown input: %s site %s, edit %s: %s %s\nby edit: %s" % (first.origin, first.site, first.variant, first.cls, first.detail, summary[:1200])
+            DUMP.append({"property": "C11", "status": "open", "match": key, "rule": rule, "what": what.split("\n")[0] + " -- " + summary,
+                         "failing": failing})
             ctx.violation(what, files={"input.wgsl": first.src, "failing_sites.txt": "\n".join(failing) + "\n",
                                        "expectation.txt": "rule=%s variant=%s site=%s expect=%r edit_tokens=%r\nnaga: %s\n" % (
-                                           rule, variant, first.site, first.expect, first.edit_range, json.dumps(first.res)[:1500])},
+                                           rule, first.variant, first.site, first.expect, first.edit_range, json.dumps(first.res)[:1500])},
                           key=key)
         else:
             by = {}
@@ -445,12 +472,13 @@ def report(ctx, scope, cases):
                 if c.expect[0] != "semantic" and cls in ("accepted", "not-a-syntax-error", "no-position"):
                     # one defect, three faces: the parser let the token list through; what happens later depends on the program
                     cls = "not-diagnosed-by-parser"
-                by.setdefault((site_kind(c.site), cls), []).append(c)
-            for (sk, cls), lst in sorted(by.items()):
+                by.setdefault((c.variant, site_kind(c.site), cls), []).append(c)
+            for (variant, sk, cls), lst in sorted(by.items()):
                 first = sorted(lst, key=lambda c: (len(c.src), c.origin))[0]
                 key = "corpus:%s/%s:%s:%s" % (rule, variant, sk, cls)
                 what = "repository shader %s with edit %s/%s at a %s site: %s (%s) %s (%d such cases this run)" % (
                     first.origin, rule, variant, sk, cls, first.cls, first.detail, len(lst))
+                DUMP.append({"property": "C11", "status": "open", "match": key, "what": what})
                 ctx.violation(what, files={"input.wgsl": first.src,
                                            "expectation.txt": "expect=%r edit_tokens=%r\nnaga: %s\n" % (first.expect, first.edit_range, json.dumps(first.res)[:1500])},
                               key=key)
@@ -541,6 +569,11 @@ def run(ctx):
             if c.rule not in [s.get("rule") for s in ctx.cov["samples"]]:
                 ctx.sample({"rule": c.rule, "edit": c.variant, "site": c.site, "program": c.origin,
                             "naga": {"stage": c.res.get("stage"), "pos": c.res.get("pos")}, "expected": list(c.expect)})
+    import os
+    if os.environ.get("C11_DUMP_FINDINGS"):
+        with open(os.environ["C11_DUMP_FINDINGS"], "w") as f:
+            for d in DUMP:
+                f.write(json.dumps(d) + "\n")
     ctx.cov["evaluations"] = n_eval
     ctx.cov["distinct_nontrivial"] = len(set(hashlib.sha1(c.src.encode("utf-8", "surrogateescape")).digest() for c in allc)) + \
         (ctx.cov.get("leaf_correspondence", {}).get("swizzle", {}).get("compared", 0))
